@@ -183,7 +183,7 @@ class C20(PropertyCheck):
         cases = []
         utf8 = [s.encode("utf-8") for s in UTF8_NAMES]
         sjis = [s.encode("shift_jis") for s in SJIS_NAMES]
-        nfiles = 36 if not thorough else 360
+        nfiles = 36 if not thorough else 220
         cut_limit = 2048 if not thorough else 6 * 1024
         for kind in KINDS:
             for j in range(nfiles):
